@@ -130,6 +130,28 @@ static void check_bytes(const std::string &bytes) {
 }
 
 // ---- structure-aware decode: build a message from a shape, then damage it in targeted ways
+static std::string structured(FuzzedDataProvider &f);
+static std::string structured_bundle(FuzzedDataProvider &f) {
+  std::vector<std::string> el;
+  int k = f.ConsumeIntegralInRange<int>(0, 3);
+  for (int i = 0; i < k; i++) el.push_back(f.ConsumeBool() ? structured(f) : refosc::encode("/e", "i", {refosc::Val()}));
+  std::string b = refosc::encode_bundle(f.ConsumeIntegral<uint64_t>(), el);
+  int nedits = f.ConsumeIntegralInRange<int>(0, 3);
+  for (int e = 0; e < nedits; e++) {
+    static const uint32_t L[] = {0xfffffffcu, 0xffffffffu, 0x80000000u, 0x7fffffffu, 0xfffffff8u, 0u, 4u, 0xfffffff4u};
+    // overwrite a size word (they sit at offset 16 and after each element) or append a hostile one
+    std::vector<size_t> offs;
+    size_t pos = 16;
+    for (auto &x : el) { offs.push_back(pos); pos += 4 + x.size(); }
+    uint32_t nv = f.ConsumeBool() ? L[f.ConsumeIntegralInRange<int>(0, 7)] : f.ConsumeIntegral<uint32_t>();
+    std::string w{(char)(nv >> 24), (char)(nv >> 16), (char)(nv >> 8), (char)nv};
+    if (!offs.empty() && f.ConsumeBool()) { size_t o = offs[f.ConsumeIntegralInRange<size_t>(0, offs.size() - 1)]; if (o + 4 <= b.size()) b.replace(o, 4, w); }
+    else b += w;
+    if (f.ConsumeBool() && !b.empty()) b.resize(f.ConsumeIntegralInRange<size_t>(0, b.size()));
+  }
+  if (b.size() > 512) b.resize(512);
+  return b;
+}
 static std::string structured(FuzzedDataProvider &f) {
   static const char TAGS[] = "ifsbhtdScrmTFNI[]";
   std::string addr = "/";
@@ -219,9 +241,9 @@ extern "C" int LLVMFuzzerTestOneInput(const uint8_t *data, size_t size) {
     ctx().count("mode.raw");
     check_bytes(std::string((const char *)data + 1, std::min<size_t>(size - 1, 512)));
   } else {
-    ctx().count("mode.structured");
     FuzzedDataProvider f(data + 1, size - 1);
-    check_bytes(structured(f));
+    if ((mode & 6) == 6) { ctx().count("mode.structured_bundle"); check_bytes(structured_bundle(f)); }
+    else { ctx().count("mode.structured"); check_bytes(structured(f)); }
   }
   return 0;
 }
@@ -237,6 +259,7 @@ extern "C" int LLVMFuzzerInitialize(int *argc, char ***argv) {
         refosc::encode("/b", "b", {V('b', 0, "blobdata")}), refosc::encode("/m", "hdtm", {V('h', 1), V('d', 2), V('t', 3), V('m', 4)}),
         refosc::encode("/t", "TFNI[ii]", {V('T', 0), V('F', 0), V('N', 0), V('I', 0), V('i', 1), V('i', 2)}),
         refosc::encode("/s", "sSb", {V('s', 0, ""), V('S', 0, "abc"), V('b', 0, "")}), refosc::encode("/c", "cr", {V('c', 'x'), V('r', 0x11223344)})};
+    c.push_back(refosc::encode_bundle(1, {refosc::encode("/a", "i", {V('i', 1)}), refosc::encode_bundle(2, {refosc::encode("/b", "", {})})}));
     int k = 0;
     for (auto &m : c) vf::write_file(std::string((*argv)[2]) + "/seed" + std::to_string(k++), std::string(1, (char)1) + m);
     exit(0);
